@@ -155,7 +155,7 @@ func (w *world) keyOf(s *state) string {
 	// (an honoured request with re-sealed info attached leaves the same records
 	// as the plain one - the records are part of the key - so the two are one
 	// state; the payload replayed later is whichever was honoured first)
-	return strings.Join(parts, " ") + " accepted=" + strings.ReplaceAll(strings.ReplaceAll(strings.Join(s.accepted, ","), "+rewrapped-by-own-record", ""), "|caller-nil-option", "")
+	return strings.Join(parts, " ") + " accepted=" + strings.ReplaceAll(strings.ReplaceAll(strings.ReplaceAll(strings.Join(s.accepted, ","), "+rewrapped-by-own-record", ""), "|caller-nil-option", ""), "+id-field-of-K2", "")
 }
 
 // source returns the node-side key material named by src, or nil.
@@ -235,6 +235,15 @@ func (w *world) build(s *state, rq request) (*types.RotateNodeCredentialsRequest
 			return nil, ""
 		}
 		inner, innerKey = mk(fresh, harness.ForgedToken(w.seed), 0), fresh
+	case "fresh+id-field-of-K2":
+		// the signed bundle's own id field (which the library's node side leaves
+		// empty) names another node's record
+		if fresh == "" {
+			return nil, ""
+		}
+		info := harness.Info(w.k[fresh], w.e[fresh], harness.Bytes("rot-nonce-"+fresh, 32))
+		info.Id = w.k["K2"].KeyId
+		inner, innerKey = harness.SignedRequest(info, w.k[fresh]), fresh
 	case "fresh+rewrapped-by-own-record":
 		// the rotating node attaches, outside the signed bundle, registration
 		// info for its new key re-sealed under the keys it shares with the
@@ -531,7 +540,7 @@ func labels(c *engine.Ctx) []string {
 	var out []string
 	srcs := []string{"cur:K1", "prev:K1", "cur:K1b", "cur:K2", "unrelated", "cur:Kn1"}
 	idents := []string{"key:K1", "key:K2", "key:KU", "key:Kn1", "node:X", "node:Z"}
-	inners := []string{"fresh", "fresh+rewrapped-by-own-record", "registered:K2", "registered:K1", "token-nonce", "compact-token-nonce", "nonce-31-bytes", "nonce-33-bytes", "expired", "wrong-signer", "garbage"}
+	inners := []string{"fresh", "fresh+rewrapped-by-own-record", "fresh+id-field-of-K2", "registered:K2", "registered:K1", "token-nonce", "compact-token-nonce", "nonce-31-bytes", "nonce-33-bytes", "expired", "wrong-signer", "garbage"}
 	for _, s := range srcs {
 		for _, i := range idents {
 			for _, in := range inners {
@@ -640,7 +649,7 @@ func init() {
 	engine.Register(&engine.CheckDef{
 		ID:    "C10",
 		Level: "model_checking",
-		Rule: "BFS (quick depth 3, thorough 4) from 11 initial stores (previous key recorded or not; the superseded record still stored before/after its successor; a second record under the node id before/after the first; NodeIdLoader or plain storage) over rotation requests {encrypting key: current of K1/K1b/K2/new key, recorded previous pair, unrelated} x {identification: key id of K1/K2/unknown/new, node id X, unknown node id} x {inner: fresh key, fresh key with registration info re-sealed under the sender's own keys attached, registered K1/K2, token-sized nonce, compact token nonce, 31- and 33-byte nonces, expired window, wrong signer, not a request}, the honest shapes again with a caller-supplied WithState option (K2's record carries no state, the others do) and with a nil entry in the caller's option list, replays of every honoured payload and removal of old records; every request refused only for an already registered inner key is retried with each single storage operation failing and must stay refused; " +
+		Rule: "BFS (quick depth 3, thorough 4) from 11 initial stores (previous key recorded or not; the superseded record still stored before/after its successor; a second record under the node id before/after the first; NodeIdLoader or plain storage) over rotation requests {encrypting key: current of K1/K1b/K2/new key, recorded previous pair, unrelated} x {identification: key id of K1/K2/unknown/new, node id X, unknown node id} x {inner: fresh key, fresh key with registration info re-sealed under the sender's own keys attached, fresh key with the bundle's own id field naming another node's record, registered K1/K2, token-sized nonce, compact token nonce, 31- and 33-byte nonces, expired window, wrong signer, not a request}, the honest shapes again with a caller-supplied WithState option (K2's record carries no state, the others do) and with a nil entry in the caller's option list, replays of every honoured payload and removal of old records; every request refused only for an already registered inner key is retried with each single storage operation failing and must stay refused; " +
 			"distinct_nontrivial = canonical states reached (records with node id / previous key / state, and the set of honoured payloads)",
 		Assumptions: []string{"removing the record a rotation created and then replaying that rotation is outside the alphabet (the quantifier lists replay and repeated rotation, not revocation)", "forged = encrypted under another pool key"},
 		Shards:      func(c *engine.Ctx) int { return 11 },
